@@ -26,6 +26,7 @@ LEAVES = ["normal", "raise@0", "raise@1", "raise@2", "base@1", "return@1", "clos
 
 BOUNDS = {
     "quick": {
+        "tmp_no_context": "TmpPool used without the context manager: create / remove / flush / reuse (0, 1, 3 files)", 
         "filepool_iterables": "paths given as iterator / generator / tuple", 
         "tmp_history": "all sequences of length <= 5 over {create, remove(oldest), remove(2nd), remove of an "
                        "externally deleted file, flush}, each once leaving the context normally and once with an "
@@ -37,6 +38,7 @@ BOUNDS = {
                     "after I/O, BaseException, return, explicit close first)",
     },
     "thorough": {
+        "tmp_no_context": "TmpPool used without the context manager: create / remove / flush / reuse (0, 1, 3 files)", 
         "filepool_iterables": "paths given as iterator / generator / tuple", 
         "tmp_history": "length <= 6 (2 x 19531) + 2000 random histories of length 7..10",
         "tmp_multiproc": "48 scenarios (all combinations of 1..3 children x 1..2 files x leave x 4 variants)",
@@ -58,6 +60,9 @@ def cases(tier, seed):
         for ops in itertools.product(TMP_OPS, repeat=n):
             yield {"kind": "tmp_history", "ops": list(ops), "leave": "normal"}
             yield {"kind": "tmp_history", "ops": list(ops), "leave": "raise"}
+    for n in (0, 1, 3):
+        for rf in (False, True):
+            yield {"kind": "tmp_no_context", "n": n, "remove_first": rf}
     yield {"kind": "tmp_default_dir", "leave": "normal"}
     yield {"kind": "tmp_default_dir", "leave": "raise"}
     # FilePool
@@ -160,6 +165,38 @@ def _run_tmp_history(case):
         if left or any(os.path.exists(q) for q in everything):
             return _fail("tmppool/left-behind-after-exit", [], left)
     return {"ok": True, "trivial": "c" not in ops, "scenario": "tmppool/history", "expected": None, "observed": None}
+
+
+def _run_tmp_no_context(case):
+    """create / remove / flush work on a pool that is never entered as a context manager (same process): flush removes every listed file"""
+    from windpyutils.files import TmpPool
+    import tempfile
+    d = tempfile.mkdtemp()
+    made = []
+    try:
+        pool = TmpPool(d)
+        for _ in range(case["n"]):
+            made.append(pool.create())
+        if len(set(made)) != case["n"] or not all(os.path.isfile(q) for q in made) or len(pool) != case["n"]:
+            return _fail("tmppool/no-context/create", "%d distinct existing listed files" % case["n"], {"made": made, "len": len(pool)})
+        if case["n"] >= 2 and case["remove_first"]:
+            pool.remove(made[0])
+            if os.path.exists(made[0]) or len(pool) != case["n"] - 1:
+                return _fail("tmppool/no-context/remove", "first file removed and unlisted", {"exists": os.path.exists(made[0]), "len": len(pool)})
+        pool.flush()
+        left = [q for q in made if os.path.exists(q)]
+        if left or len(pool) != 0:
+            return _fail("tmppool/no-context/flush", {"left": [], "listed": 0}, {"left": [os.path.basename(q) for q in left], "listed": len(pool)})
+        again = pool.create()
+        ok_again = os.path.isfile(again) and len(pool) == 1
+        pool.flush()
+        if not ok_again or os.path.exists(again):
+            return _fail("tmppool/no-context/reuse-after-flush", "create and flush work again", {"created": ok_again, "left": os.path.exists(again)})
+    finally:
+        for f in os.listdir(d):
+            os.remove(os.path.join(d, f))
+        os.rmdir(d)
+    return {"ok": True, "trivial": False, "scenario": "tmppool/no-context", "expected": None, "observed": None}
 
 
 def _run_tmp_default_dir(case):
@@ -364,6 +401,8 @@ def run_case(case):
         return _run_tmp_history(case)
     if k == "tmp_default_dir":
         return _run_tmp_default_dir(case)
+    if k == "tmp_no_context":
+        return _run_tmp_no_context(case)
     if k == "filepool":
         return _run_filepool(case)
     if k == "tmp_multiproc":
